@@ -50,8 +50,8 @@ pub fn run_property(prop: &str, tier: Tier, seed: u64, scale: f64) -> i32 {
         ],
         "C03" => vec![batch(&Forge, tier, seed, 60_000, 1_500_000, scale)],
         "C04" => vec![
-            batch(&Swarm { big_skew: false }, tier, seed, 15_000, 300_000, scale),
-            batch(&Swarm { big_skew: true }, tier, seed, 3_000, 60_000, scale),
+            batch(&Swarm { big_skew: false, events_only: false }, tier, seed, 15_000, 300_000, scale),
+            batch(&Swarm { big_skew: true, events_only: false }, tier, seed, 3_000, 60_000, scale),
         ],
         "C05" => vec![
             batch(&QueryScen { large: false }, tier, seed, 150_000, 3_000_000, scale),
@@ -86,7 +86,10 @@ pub fn run_property(prop: &str, tier: Tier, seed: u64, scale: f64) -> i32 {
             batch(&Coord, tier, seed, 20_000, 400_000, scale),
             batch(&CoordReal, tier, seed, 6_000, 150_000, scale),
         ],
-        "C12" => vec![batch(&Events { only_download: false }, tier, seed, 120_000, 2_500_000, scale)],
+        "C12" => vec![
+            batch(&Events { only_download: false }, tier, seed, 120_000, 2_500_000, scale),
+            batch(&Swarm { big_skew: false, events_only: true }, tier, seed, 5_000, 100_000, scale),
+        ],
         "C14" => vec![batch(&ActorScen { cap_focus: false, removal_focus: false, crash_focus: false }, tier, seed, 30_000, 800_000, scale)],
         "C15" => vec![
             batch(&Docs { mode: DocsMode::Policy }, tier, seed, 40_000, 1_000_000, scale),
@@ -128,8 +131,9 @@ fn replay_dispatch(prop: &str, scenario: &str, plan: Value) -> Result<(Option<cr
         (_, "decoders-pure") => replay_plan(&Decoders { mode: PureMode::Codecs }, plan),
         (_, "heads-encoding-pure") => replay_plan(&Decoders { mode: PureMode::Heads }, plan),
         (_, "filters-pure") => replay_plan(&Decoders { mode: PureMode::Filters }, plan),
-        (_, "swarm") => replay_plan(&Swarm { big_skew: false }, plan),
-        (_, "swarm-bigskew") => replay_plan(&Swarm { big_skew: true }, plan),
+        (_, "swarm") => replay_plan(&Swarm { big_skew: false, events_only: false }, plan),
+        (_, "swarm-events") => replay_plan(&Swarm { big_skew: false, events_only: true }, plan),
+        (_, "swarm-bigskew") => replay_plan(&Swarm { big_skew: true, events_only: false }, plan),
         (_, "session") => replay_plan(&Session { enumerate: false }, plan),
         (_, "session-enum") => replay_plan(&Session { enumerate: true }, plan),
         (_, "query") => replay_plan(&QueryScen { large: false }, plan),
@@ -253,7 +257,7 @@ pub fn determinism(prop: Option<&str>, seeds: u64) -> i32 {
     if all || p == "C02" { twice(&Offer { mode: OfferMode::State, large: false }, seeds, &mut bad); twice(&Offer { mode: OfferMode::State, large: true }, seeds.min(20), &mut bad); }
     if all || p == "C13" { twice(&Offer { mode: OfferMode::Heads, large: false }, seeds, &mut bad); }
     if all || p == "C03" { twice(&Forge, seeds, &mut bad); }
-    if all || p == "C04" { twice(&Swarm { big_skew: false }, seeds, &mut bad); twice(&Swarm { big_skew: true }, seeds.min(50), &mut bad); }
+    if all || p == "C04" { twice(&Swarm { big_skew: false, events_only: false }, seeds, &mut bad); twice(&Swarm { big_skew: true, events_only: false }, seeds.min(50), &mut bad); }
     if all || p == "C05" { twice(&QueryScen { large: false }, seeds, &mut bad); twice(&QueryScen { large: true }, seeds.min(20), &mut bad); }
     if all || p == "C06" { twice(&Crash { long: false }, seeds.min(60), &mut bad); twice(&Crash { long: true }, seeds.min(40), &mut bad); }
     if all || p == "C07" { twice(&Docs { mode: DocsMode::Cap }, seeds, &mut bad); }
